@@ -119,7 +119,9 @@ TABLE = [
     ('R8', 'X.by_ref().take(N).read(B) -> vio_read_take(X, N, B)', re.compile(r'\b(self\.src)\.by_ref\(\)\.take\(([^;]*?)\)\.read\((\w+)\)'), r'vio_read_take(\1, \2, \3)'),
     ('R4', 'Cursor::new -> VCursor::new', re.compile(r'(?<![A-Za-z_:])Cursor::new\('), 'VCursor::new('),
     ('R8', '(&mut X).take(N).read_to_end(&mut V) -> vio_read_to_end_take',
-     re.compile(r'\(&mut ([\w.]+)\)\s*\.take\(([^;]*?)\)\s*\.read_to_end\(&mut (\w+)\)'), r'vio_read_to_end_take(&mut \1, \2, &mut \3)'),
+     re.compile(r'\(&mut ([\w.]+)\)\s*\.take\(([^;]*?)\)\s*\.read_to_end\(((?:&mut )?\w+)\)'), r'vio_read_to_end_take(&mut \1, \2, \3)'),
+    ('R8', 'X.by_ref().take(N).read_to_end(&mut V) -> vio_read_to_end_take',
+     re.compile(r'\b([\w.]+)\.by_ref\(\)\s*\.take\(([^;]*?)\)\s*\.read_to_end\(((?:&mut )?\w+)\)'), r'vio_read_to_end_take(\1, \2, \3)'),
     ('R8', 'io::copy(&mut (&mut X).take(N), &mut io::sink()) -> vio_skip_take',
      re.compile(r'io::copy\(\s*&mut \(&mut (?!decompressor)([\w.]+)\)\.take\(([^;]*?)\),\s*&mut io::sink\(\),?\s*\)'), r'vio_skip_take(&mut \1, \2)'),
     ('R8', 'BufReader::new(buf); io::copy(&mut src.take(n), &mut vec) -> vio_copy_slice_take',
@@ -161,6 +163,10 @@ OPTIONAL = {
     # R15: in a function returning Result<_, mla::Error>, `IOCALL?` converts the io::Error with `From<io::Error> for Error`
     # (errors.rs: Self::IOError(error)). Verus gives `?` no specification for a non-identity conversion, so the conversion is
     # written out: IOCALL.map_err(verr_from_io)?  -- this is the definition of `?`.
+    # R9: name the ghost iterator of every `for` loop of the function (`for PAT in EXPR {` -> `for PAT in it: EXPR {`)
+    'forit': [
+        ('R9', 'for PAT in EXPR { -> for PAT in it: EXPR {', re.compile(r'\bfor (\w+|\([^)]*\)) in ([^{;]+?) \{'), r'for \1 in it: \2 {'),
+    ],
     'qio': [
         ('R15', 'vio_*(..)? -> vio_*(..).map_err(verr_from_io)?', re.compile(r'(\bvio_\w+' + _ARGS + r')\s*\?'), r'\1.map_err(verr_from_io)?'),
         ('R15', '.seek/.read/.flush(..)? -> .map_err(verr_from_io)?', re.compile(r'(\.(?:seek|read|flush)' + _ARGS + r')\s*\?'), r'\1.map_err(verr_from_io)?'),
